@@ -3,11 +3,11 @@
 package c10
 
 import (
-	"os"
 	"bytes"
 	"encoding/json"
 	"fmt"
 	"math"
+	"os"
 	"sort"
 	"strings"
 	"testing"
@@ -274,6 +274,53 @@ func TestP2OwnOutput(t *testing.T) {
 			rec.Fail(t, msg, c)
 		}
 	})
+}
+
+// TestP3LongStrings: files whose info strings are long and need an escape at
+// every offset in turn (written by the independent writer), through the
+// read-write-read closure.
+func TestP3LongStrings(t *testing.T) {
+	rec := ev.New("C10", "longstrings")
+	defer rec.Finish(t)
+	rec.Rule("enumerated: a font laid out by the independent writer whose Notice (or Copyright / FullName in turn) is 780 bytes long with a backslash, parenthesis, CR, LF, NUL or byte 0x80 (or a pair of them) at EVERY offset 0..760; same closure oracle in all four output formats (the library must write long string literals so that they read back unchanged wherever it wraps or buffers them). Every case is non-trivial; distinct by (offset, variant).")
+	ex := findings(rec)
+	k := 0
+	for at := 0; at <= 760; at++ {
+		k++
+		if !ev.Mine(k) {
+			continue
+		}
+		b := bytes.Repeat([]byte{'x'}, 780)
+		esc := []string{"\\", "(", ")", "\r", "\n", "\x00", "\x80", "\\\\", "\\(", "\r\n", "()", "\\\\\\\\\\\\"}[(at*5+at/12)%12]
+		copy(b[at:], esc)
+		data := probeModel(func(m *t1ref.Font) {
+			switch at % 3 {
+			case 0:
+				m.Notice = t1ref.Str{Present: true, Val: b}
+			case 1:
+				m.Copyright = t1ref.Str{Present: true, Val: b}
+			default:
+				m.FullName = t1ref.Str{Present: true, Val: b}
+			}
+		})
+		c := &c10case{Data: data}
+		var msg, status string
+		msg = ev.Safe(func() string {
+			var m string
+			m, status = check(c, ex)
+			return m
+		})
+		if status != "" {
+			rec.Excluded(status)
+			continue
+		}
+		rec.Eval(1)
+		rec.NonTrivial(fmt.Sprint(at))
+		if msg != "" {
+			rec.Violation(false, fmt.Sprintf("escape at offset %d of a 780-byte info string: %s", at, msg), c)
+		}
+	}
+	rec.Exhaustive()
 }
 
 func TestReplay(t *testing.T) {
